@@ -225,6 +225,11 @@ func (r *Report) Finish(verifDir string, findings []Finding, quiet bool) int {
 		perRuleSample[o.Rule]++
 		samples = append(samples, o)
 	}
+	var index []string
+	for _, o := range r.Obls {
+		index = append(index, fmt.Sprintf("%s | %s | %v", o.Rule, o.Construct, o.Status))
+	}
+	sort.Strings(index)
 	rules := []string{}
 	for id := range r.RuleDoc {
 		rules = append(rules, id)
@@ -247,6 +252,7 @@ func (r *Report) Finish(verifDir string, findings []Finding, quiet bool) int {
 		"distinct_nontrivial": len(nontrivial),
 		"rule":                "one obligation per (rule, construct) instance enumerated from the SSA of /repo's current source; non-trivial = its discharge needed an argument (a guard found, a path cut, an origin traced, a table entry) rather than 'no such construct here'; distinct = distinct rule+construct keys",
 		"samples":             samples,
+		"obligation_index":    index,
 		"exhaustive":          true,
 		"rules":               ruleInfo,
 		"functions_analysed":  funcs,
